@@ -5,16 +5,19 @@ Local Open Scope N_scope.
 (* For every history of block writes, byte-count writes, write_byte and
    zeroout, over any number of appending sessions (UReopen), any filesystem
    offset, any channel block size B dividing the undo block size T: replaying
-   the recorded keys gives back every byte of the original device. *)
+   the recorded keys gives back every byte of the original device.
+   (reopen_ok_ops: appending sessions are covered for filesystem offsets below
+   one undo block; with a larger offset the implementation refuses to reopen
+   the undo file - it compares the superblock before the offset is known.) *)
 Theorem undo_restores : forall B T off d0 ops,
-  0 < B -> 0 < T -> T mod B = 0 ->
+  0 < B -> 0 < T -> T mod B = 0 -> reopen_ok_ops T off ops ->
   forall o, e2undo B off (urun B T off (uinit d0) ops) o = d0 o.
 Proof. exact undo_restores_all. Qed.
 Print Assumptions undo_restores.
 
 (* The order in which e2undo writes the keys back is irrelevant. *)
 Theorem undo_replay_order_irrelevant : forall B T off d0 ops keys',
-  0 < B -> 0 < T -> T mod B = 0 ->
+  0 < B -> 0 < T -> T mod B = 0 -> reopen_ok_ops T off ops ->
   let s := urun B T off (uinit d0) ops in
   (forall k, In k keys' <-> In k (u_keys s)) ->
   forall o, replay_keys B off keys' (u_dsk s) o = d0 o.
